@@ -328,6 +328,28 @@ impl Coverage {
         }
         self.ranges.iter().any(|(lo, hi)| *lo < b && b <= *hi)
     }
+    /// An input entry in block `b` can only be recorded if the creating transaction was known
+    /// when `b` was examined: `created` must lie in the same or an earlier registration range
+    /// than a range that contains `b` (ranges are kept in chronological order).
+    pub fn input_required(&self, b: u64, created: u64) -> bool {
+        let has = |i: usize, n: u64| -> bool {
+            if n == 0 {
+                return self.genesis;
+            }
+            let (lo, hi) = self.ranges[i];
+            lo < n && n <= hi
+        };
+        for i in 0..self.ranges.len() {
+            if has(i, b) {
+                for j in 0..=i {
+                    if has(j, created) {
+                        return true;
+                    }
+                }
+            }
+        }
+        false
+    }
     pub fn truncate(&mut self, h: u64) {
         for r in self.ranges.iter_mut() {
             if r.1 > h {
@@ -458,12 +480,20 @@ pub fn compare(
                     ));
                 }
                 if let Some(sp) = t.spent_in {
-                    if sp <= progress && required.contains(sp) {
+                    // cells created outside the script's own range are by-products of other
+                    // scripts' matched blocks: allowed, but their liveness is not judged
+                    if sp <= progress && required.contains(sp) && required.contains(t.number) {
                         out.push((
-                            "spent_cell_reported_live".into(),
+                            if required.contains(t.number) {
+                                "spent_cell_reported_live".into()
+                            } else {
+                                // the cell itself lies outside the script's own range (it was
+                                // indexed as a by-product of another script's matched block)
+                                "spent_cell_outside_own_range_reported_live".into()
+                            },
                             format!(
-                                "{}: cell created in block {} (tx {}, out {}) was spent in block {} <= progress {} but is still returned",
-                                name, t.number, t.tx_index, t.out_index, sp, progress
+                                "{}: cell created in block {} (tx {}, out {}) was spent in block {} <= progress {} but is still returned [created={}]",
+                                name, t.number, t.tx_index, t.out_index, sp, progress, t.number
                             ),
                             sp,
                         ));
@@ -523,7 +553,7 @@ pub fn compare(
         if !(required.contains(e.number) && e.number <= progress) {
             continue;
         }
-        if e.is_input && !(required.contains(e.created_in) && e.created_in <= progress) {
+        if e.is_input && !(required.input_required(e.number, e.created_in) && e.created_in <= progress) {
             // the client cannot resolve a cell it was never asked to know
             continue;
         }
@@ -532,13 +562,15 @@ pub fn compare(
             out.push((
                 "missing_tx_entry".into(),
                 format!(
-                    "{}: block {} tx {} io {} {} touches the script but is not in get_transactions; progress {}",
+                    "{}: block {} tx {} io {} {} touches the script but is not in get_transactions; progress {} (cell created in {}, required ranges {:?})",
                     name,
                     e.number,
                     e.tx_index,
                     e.io_index,
                     if e.is_input { "input" } else { "output" },
-                    progress
+                    progress,
+                    e.created_in,
+                    required.ranges
                 ),
                 e.number,
             ));
